@@ -356,7 +356,7 @@ func CheckUciHistory(sc *Scenario, out *UciRunOut, res *RunResult) {
 
 	// waits
 	for _, w := range out.Waits {
-		if w.Ok {
+		if w.Ok || w.BudgetStop {
 			continue
 		}
 		st := sc.Steps[w.Step]
